@@ -771,7 +771,8 @@ func (multi *MultiEpoch) processSlotTransactions(
 		}
 	}
 
-	filterOutTxn := func(tx solana.Transaction, meta any) bool {
+	// txnMatchesFilter reports whether the transaction satisfies the filter (and must be streamed).
+	txnMatchesFilter := func(tx solana.Transaction, meta any) bool {
 		if filter == nil {
 			return true
 		}
@@ -859,7 +860,7 @@ func (multi *MultiEpoch) processSlotTransactions(
 					return status.Errorf(codes.Internal, "Failed to parse transaction meta: %v", err)
 				}
 
-				if !filterOutTxn(*txn, meta) {
+				if txnMatchesFilter(*txn, meta) {
 
 					txResp := new(old_faithful_grpc.TransactionResponse)
 					txResp.Transaction = new(old_faithful_grpc.Transaction)
@@ -973,7 +974,7 @@ func (multi *MultiEpoch) processSlotTransactions(
 							return
 						}
 
-						if !filterOutTxn(tx, meta) {
+						if txnMatchesFilter(tx, meta) {
 							txResp := new(old_faithful_grpc.TransactionResponse)
 							txResp.Transaction = new(old_faithful_grpc.Transaction)
 							{
